@@ -58,6 +58,9 @@ func expected(res *prog.Result, rb *prog.ReadBack, mask bool) (qs []pdf.Referenc
 			return
 		case w == nil:
 			obs[ref] = "null"
+		case w.IsStream && w.KindOnly:
+			// a chain only declared in the caller's dictionary that no reader decodes: no oracle for the data
+			return
 		case w.IsStream && rb.OpenErr != nil:
 			// decoding filter chains is go-pdf's business (the oracle comes from its reader),
 			// and the reader refused this file (F18)
